@@ -333,7 +333,14 @@ def execute(sc, mutant=None, want_ops=False, want_schedule=False):
             u, rp = follow_script(s, sc, cf, ev, st, faults, err_atts, scfs, safe, quiet_call)
         else:
             u = s.spawn(user, 'user')
-        why = s.run(until=lambda: u.finished, horizon=HORIZON + 60.0)
+        # Virtual time may jump (tick policies), so every horizon is relative to the clock at the moment of the call
+        # (an absolute horizon that is already past would set the clock BACK).  The user phase ends when the user program
+        # is through or HORIZON+60 virtual seconds pass without any call / callback event.
+        while True:
+            n0 = sum(1 for e in ev if e['e'] != 'op')
+            why = s.run(until=lambda: u.finished, horizon=s.now + HORIZON + 60.0)
+            if why != 'horizon' or sum(1 for e in ev if e['e'] != 'op') == n0:
+                break
         t_q = max(s.now, st['stim_t']) + HORIZON
         why2 = s.run(horizon=t_q)
         rep = s.report()
